@@ -46,7 +46,7 @@ MonInit ==
   [pos |-> 0, cls |-> "", ps |-> "", size |-> Inf, sizeFixed |-> TRUE, implBase |-> Inf, lastSetPos |-> 0,
    endsSinceSet |-> 0, C |-> {}, alive |-> {}, prevAlive |-> {}, T |-> <<>>, R |-> <<>>, liveG |-> {}, Gobs |-> <<>>,
    forgot |-> {}, maybe |-> {}, closed |-> FALSE, H |-> <<>>, lastO |-> <<0, 0, 0, 0, 0, Inf>>,
-   lastCall |-> -2, void |-> FALSE, inj |-> {}, cbCanc |-> FALSE, extCanc |-> FALSE, gfPos |-> 0, anyExc |-> FALSE,
+   lastCall |-> -2, void |-> FALSE, nstart |-> 0, inj |-> {}, cbCanc |-> FALSE, extCanc |-> FALSE, gfPos |-> 0, anyExc |-> FALSE,
    viol |-> {}, hit |-> {}]
 
 (* ---- bookkeeping helpers ------------------------------------------------ *)
@@ -252,6 +252,12 @@ OnSpawn(g, e) ==
       v1 == Chk("C09.err", e.r, okRes <=> causes = {})
             \cup Chk("C09.err", e.r, (~okRes /\ causes # {}) => (SeqSet(e.isa) \cap causes # {}))
             \cup Chk("C09.noeffect", e.r, ~okRes => SameObs(g, e))
+            \* a rejected start() must not even consume a group index: the next accepted one continues the count
+            \cup Chk("C09.noeffect", e.r, (okRes /\ e.kind = "start") => e.idx = g.nstart)
+            \* once the pool is closed that is what a spawn request is told (a closed pool is always locked as well)
+            \cup (IF g.closed /\ ~okRes /\ ~e.notcoro
+                  THEN Chk("C08.closed", e.r, "PoolIsClosed" \in SeqSet(e.isa)) \cup Chk("C09.err", e.r, "PoolIsClosed" \in SeqSet(e.isa))
+                  ELSE {})
             \cup (IF okRes THEN
                     Chk("C10.names", e.r, e.ret \notin g.liveG)
                     \cup Chk("C10.names", e.r,
@@ -264,7 +270,8 @@ OnSpawn(g, e) ==
       R2 == IF e.kind = "start" /\ okRes
             THEN Upd(Upd(g.R, e.r, q), -1, [ReqOf(g, -1) EXCEPT !.num = @ + e.num])
             ELSE Upd(g.R, e.r, q)
-  IN Out([g EXCEPT !.R = R2, !.liveG = IF okRes THEN @ \cup {e.ret} ELSE @], v1,
+  IN Out([g EXCEPT !.R = R2, !.liveG = IF okRes THEN @ \cup {e.ret} ELSE @,
+                   !.nstart = IF okRes /\ e.kind = "start" THEN @ + 1 ELSE @], v1,
          Hit("C09.err", causes # {}) \cup Hit("C09.multi", Card(causes) > 1) \cup Hit("C10.names", okRes))
 
 ErrClassOf(g, id) ==    \* which errors cancel(id) may raise for this id
@@ -539,7 +546,9 @@ Post(g, e) ==
                                       /\ g.R[r].kind \in {"apply"} /\ g.R[r].calls - g.R[r].raised > Card(g.R[r].begunJ)
                                       /\ {id \in g.C : ~g.T[id].began /\ g.T[id].grp = g.R[r].gname} = {}}
       vRaise == IF quiet /\ ~g.sizeFixed /\ g.size # Inf /\ blocked # {} /\ ~g.closed
-                THEN ChkK("C15.raise", -1, live >= g.size, IF g.endsSinceSet = 0 THEN "KF-B.wake" ELSE "KF-B.set")
+                THEN ChkK("C15.raise", -1, live >= g.size,
+                          \* as implemented, waiters are woken by the next task that ends, unless the free count is used up
+                          IF g.endsSinceSet = 0 THEN "KF-B.wake" ELSE IF szobs <= 0 THEN "KF-B.set" ELSE "")
                 ELSE {}
       vRoom == IF quiet /\ g.sizeFixed /\ g.size # Inf /\ blocked # {} /\ ~g.closed
                THEN Chk("C02.room", -1, live >= g.size) ELSE {}
@@ -579,7 +588,15 @@ Dispatch(g, e) ==
     [] e.e = "final"   -> OnFinal(g, e)
     [] OTHER           -> g            \* "h", "skip"
 
-MonStep(g, e) == Post(GroupObs(Dispatch(Pre(g, e), e), e), e)
+(* C12: once a failure was injected (raising worker / call / callback), a lost slot or a starved sibling request is
+   also a failure of containment *)
+Containment == {"C01.full", "C02.idle", "C02.probe", "C02.room", "C02.final", "C02.ecb", "C04.count", "C05.complete", "C05.work"}
+Contain(g) ==
+  IF g.inj = {} THEN g
+  ELSE [g EXCEPT !.viol = @ \cup {[c |-> "C12.others", at |-> v.at, ent |-> v.ent, kf |-> v.kf] :
+                                   v \in {w \in g.viol : w.c \in Containment /\ w.at = g.pos}}]
+
+MonStep(g, e) == Contain(Post(GroupObs(Dispatch(Pre(g, e), e), e), e))
 
 Clauses(p) ==       \* the clause names of each property (used by the model-checking invariants)
   CASE p = "C01" -> {"C01.full", "C01.live", "C01.reported"}
@@ -593,7 +610,7 @@ Clauses(p) ==       \* the clause names of each property (used by the model-chec
     [] p = "C09" -> {"C09.err", "C09.lock", "C09.noeffect"}
     [] p = "C10" -> {"C10.disjoint", "C10.exact", "C10.member", "C10.names", "C10.unknown"}
     [] p = "C11" -> {"C11.dense", "C11.name", "C11.pools", "C11.reuse"}
-    [] p = "C12" -> {"C12.surface"}
+    [] p = "C12" -> {"C12.surface", "C12.others"}
     [] p = "C13" -> {"C13.forget", "C13.keep", "C13.nothrow"}
     [] p = "C14" -> {"C14.count", "C14.lifo"}
     [] p = "C15" -> {"C15.get", "C15.limit", "C15.neg", "C15.raise", "C15.set"}
